@@ -3,6 +3,7 @@ CONSTANT MaxColl = 1
 CONSTANT MaxReq = 1
 CONSTANT MaxVW = 2
 CONSTANT MaxBW = 1
+CONSTANT FlagSlice = "axes"
 INIT Init
 NEXT Next
 INVARIANT Statement
@@ -14,5 +15,6 @@ INVARIANT KindsDoNotMix
 INVARIANT ScriptInputsNeutral
 INVARIANT VerdictShape
 INVARIANT OrderIrrelevant
+INVARIANT FlagIrrelevant
 INVARIANT Emit
 POSTCONDITION AllCasesVisited
